@@ -165,8 +165,44 @@ package sipsp
 //@   modifies *pfrom
 //@   loop 0 "for i < len(buf)"
 //@     invariant offs <= i && i <= len(buf) && fbOK(pfrom, i, s)
+//@     invariant pfrom.state != fbInit ==> (pfrom_old.state != fbInit && pfrom.V.Offs == pfrom_old.V.Offs) || (pfrom_old.state == fbInit && int(pfrom.V.Offs) >= offs)
+//@     invariant pfrom.state != fbFIN && pfrom_old.state != fbFIN && (pfrom.state == fbInit ==> pfrom_old.state == fbInit)
 //@     decreases len(buf) - i
 //@   ensures 0 <= n && n <= len(buf)
 //@   ensures err == ErrHdrOk || err == ErrHdrMoreValues || err == ErrHdrMoreBytes ==> offs <= n
 //@   ensures err == ErrHdrMoreBytes ==> fbOK(pfrom, n, pfrom.soffs)
 //@   ensures fbWithin(pfrom, len(buf))
+//@   ensures err == ErrHdrMoreValues ==> n > offs && multipleValsOk(h)
+//@   ensures err == ErrHdrOk || err == ErrHdrMoreValues ==> fbWithin(pfrom, n) && (pfrom.state == fbFIN || n == offs)
+//@   ensures pfrom_old.state == fbFIN ==> err == ErrHdrOk && n == offs && *pfrom == pfrom_old
+//@   ensures pfrom.state != fbInit && pfrom_old.state != fbFIN ==> (pfrom_old.state != fbInit && pfrom.V.Offs == pfrom_old.V.Offs) || (pfrom_old.state == fbInit && int(pfrom.V.Offs) >= offs)
+//@   ensures err == ErrHdrMoreBytes ==> pfrom.state != fbFIN
+//@   ensures err == ErrHdrOk && pfrom_old.state != fbFIN ==> n > offs
+
+//@ func ParseAllPAIValues(buf, offs, c) (n, err)
+//@   requires bufOK(buf) && 0 <= offs && offs <= len(buf) && c != nil && paiOK(c, offs)
+//@   modifies *c
+//@   loop 0 "for"
+//@     invariant offs0 <= offs && offs <= len(buf) && paiOK(c, offs)
+//@     invariant c.N >= len(c.Vals) ==> c.last.state != fbFIN
+//@     split c.N == 0
+//@     split c.N == 1
+//@     split c.N >= len(c.Vals)
+//@     decreases len(buf) - offs
+//@   ensures 0 <= n && n <= len(buf)
+//@   ensures err == ErrHdrOk || err == ErrHdrMoreBytes ==> offs <= n
+//@   ensures err == ErrHdrMoreBytes ==> paiOK(c, n)
+//@   ensures within(c.LastHVal, len(buf))
+
+//@ func ParseAllContactValues(buf, offs, c) (n, err)
+//@   requires bufOK(buf) && 0 <= offs && offs <= len(buf) && c != nil && contOK(c, offs)
+//@   modifies *c, c.Vals[*]
+//@   loop 0 "for"
+//@     invariant offs0 <= offs && offs <= len(buf) && contOK(c, offs)
+//@     invariant c.N >= len(c.Vals) ==> c.last.state != fbFIN
+//@     invariant sameSlice(c.Vals, c_old.Vals)
+//@     decreases len(buf) - offs
+//@   ensures 0 <= n && n <= len(buf)
+//@   ensures err == ErrHdrOk || err == ErrHdrMoreBytes ==> offs <= n
+//@   ensures err == ErrHdrMoreBytes ==> contOK(c, n)
+//@   ensures within(c.LastHVal, len(buf)) && sameSlice(c.Vals, c_old.Vals)
